@@ -286,6 +286,9 @@ func (s *state) genCase(i int, raceOnly bool) *kase {
 		for j, n := 0, 1+rng.IntN(3); j < n; j++ {
 			m := msg(true, pick(rng, "small", "oversize", "manychunks", "garbage"))
 			m.End = pick(rng, "stall", "reset", "connclose", "eof")
+			if len(m.Chunks) > 1 && rng.IntN(3) == 0 {
+				m.Chunks[1+rng.IntN(len(m.Chunks)-1)].Pre = pick(rng, "pause", "close-remote", "close-victim")
+			}
 			k.PushesA = append(k.PushesA, pushSpec{On: rng.IntN(nConns), Msg: m})
 		}
 	case "keyless":
@@ -331,9 +334,9 @@ func TestC13(t *testing.T) {
 
 	raceOnly := os.Getenv("VERIF_RACE") == "1"
 	s := &state{t: t, r: r, pool: sectest.NewPool(3)}
-	n := r.Pick(1440, 36000)
+	n := r.Pick(6000, 120000)
 	if raceOnly {
-		n = r.Pick(150, 600)
+		n = r.Pick(600, 4000)
 	}
 	if v := os.Getenv("C13_DEV_N"); v != "" {
 		fmt.Sscan(v, &n)
@@ -401,30 +404,32 @@ func TestC13(t *testing.T) {
 		}
 		return r.Pick(quick, thorough)
 	}
-	r.Require("identify_completed", q(1500, 30000))
-	r.Require("identify_failed", q(150, 3000))
-	r.Require("addrs_observed_from_listen", q(2000, 40000))
-	r.Require("addrs_observed_from_signed-record", q(500, 10000))
-	r.Require("msgs_with_foreign_record", q(150, 3000))
-	r.Require("msgs_with_foreign_key", q(150, 3000))
-	r.Require("msgs_with_foreign_suffix", q(300, 6000))
-	r.Require("protocols_at_cap", q(20, 400))
-	r.Require("addresses_at_connected_cap", q(30, 600))
-	r.Require("after_disconnect_trimmed_to_20", q(50, 1000))
-	r.Require("retained_checks_with_addresses", q(80, 1600))
-	r.Require("final_expiry_checks_with_addresses", q(400, 8000))
-	r.Require("final_expiry_checks_with_addresses_raced", q(60, 1200))
-	r.Require("identify_wait_released_by_timeout", q(30, 600))
-	r.Require("identify_wait_released_promptly", q(1500, 30000))
-	r.Require("identify_completed_after_last_disconnect", q(10, 200))
-	r.Require("keyless_key_stored_again", q(20, 400))
+	r.Require("identify_completed", q(6000, 120000))
+	r.Require("identify_failed", q(600, 12000))
+	r.Require("addrs_observed_from_listen", q(100000, 2000000))
+	r.Require("addrs_observed_from_signed-record", q(30000, 600000))
+	r.Require("msgs_with_foreign_record", q(4000, 80000))
+	r.Require("msgs_with_foreign_key", q(4000, 80000))
+	r.Require("msgs_with_foreign_suffix", q(5000, 100000))
+	r.Require("protocols_at_cap", q(40, 800))
+	r.Require("addresses_at_connected_cap", q(40, 800))
+	r.Require("after_disconnect_trimmed_to_20", q(300, 6000))
+	r.Require("retained_checks_with_addresses", q(200, 4000))
+	r.Require("final_expiry_checks_with_addresses", q(1200, 24000))
+	r.Require("final_expiry_checks_with_addresses_raced", q(400, 8000))
+	r.Require("identify_wait_released_by_timeout", q(60, 1200))
+	r.Require("identify_wait_released_promptly", q(4000, 80000))
+	r.Require("identify_completed_after_last_disconnect", q(200, 4000))
+	r.Require("close_triggered_by_protocols_event", q(60, 1200))
+	r.Require("closed_at_chunk_boundary", q(30, 600))
+	r.Require("keyless_key_stored_again", q(300, 6000))
 	for _, c := range []string{"pub", "priv", "loop"} {
-		r.Require("remote_class_"+c, q(200, 4000))
+		r.Require("remote_class_"+c, q(1200, 24000))
 	}
 	if verifhookPresent() {
-		r.Require("race_consume_locks_after_last_conn_gone", q(40, 800))
-		r.Require("race_consume_locks_while_connected", q(40, 800))
-		r.Require("close_triggered_inside_consume_window", q(40, 800))
+		r.Require("race_consume_locks_after_last_conn_gone", q(200, 4000))
+		r.Require("race_consume_locks_while_connected", q(400, 8000))
+		r.Require("close_triggered_inside_consume_window", q(300, 6000))
 	}
 }
 
@@ -440,6 +445,10 @@ func (s *state) judge(k *kase, w *world, res run.BubbleResult) bool {
 		return d
 	}
 	if r.BubbleFailed(res, "bubble", k.ID, "goroutines of the case never finished (identify-wait or a stream handler blocked for good)", detail(nil)) {
+		return false
+	}
+	if w.inconclusive != "" {
+		r.Inconclusive(k.ID, w.inconclusive)
 		return false
 	}
 	for name, n := range w.counts {
